@@ -151,6 +151,25 @@ Theorem C19_mux_no_delivery_after_close : forall t1 s t2 st p,
 Proof. exact mux_no_delivery_after_close. Qed.
 Print Assumptions C19_mux_no_delivery_after_close.
 
+(* Stop closes every subscription that is in mux.subm when it finishes, and leaves the mux empty and stopped *)
+Theorem C19_mux_stop_closes_all : forall st st', mreachable st -> mstep st MStopEnd = Some st' ->
+  stopped st' = true /\ (forall t, subm st' t = None) /\
+  (forall t s, In s (slice_of st (subm st t)) -> sstat st' s = UClosed).
+Proof. exact mux_stop_closes_all. Qed.
+Print Assumptions C19_mux_stop_closes_all.
+
+Theorem C19_mux_stopped_no_subscribers : forall st, mreachable st -> stopped st = true -> forall t, subm st t = None.
+Proof. exact mux_stopped_no_subscribers. Qed.
+Print Assumptions C19_mux_stopped_no_subscribers.
+
+(* no stuck state for TypeMux (one-step progress, readers assumed willing: MDeliverSent has no reader-side
+   guard; `mpanic` = Subscribe was called with a duplicate type): whenever a Post or a Stop is under way, one of
+   their own next synchronisation points (`minternal`) is enabled *)
+Theorem C19_mux_no_stuck_state : forall st, mreachable st -> mpanic st = false -> mbusy st ->
+  exists l, minternal l = true /\ mstep st l <> None.
+Proof. exact mux_no_stuck_state. Qed.
+Print Assumptions C19_mux_no_stuck_state.
+
 (* non-vacuity: three subscribers of one type; Post 1 blocked on the first one, which is unsubscribed
    meanwhile (posdelete publishes array 3, the snapshot array 2 is untouched): the Post still delivers
    to subscribers 2 and 3, exactly once each *)
